@@ -51,7 +51,7 @@ class Mon(Monitor):
         # the completing acknowledgement of a transmitted, unsettled message settles it in that very step
         for ci, p in rx:
             for r in pubs(w):
-                if r.msgId != p['msgId'] or r.addr != w.conns[ci].addr or ci != w.cur[r.addr] or not r.qos:
+                if p.get('msgId') is None or r.msgId != p.get('msgId') or r.addr != w.conns[ci].addr or ci != w.cur[r.addr] or not r.qos:
                     continue
                 if not (r.ret == 'deferred' and r.call_step < w.step and not any(f[0] < w.step for f in r.fires)):
                     continue
@@ -98,7 +98,7 @@ def scenarios(ctx):
     out = []
     for profile in ('pub', 'pubsub'):
         for win0 in (1, 2, 3):
-            if q and (profile, win0) not in (('pub', 1), ('pubsub', 2), ('pub', 3)):
+            if q and (profile, win0) not in (('pub', 1), ('pubsub', 2)):
                 continue
             init = CONNECTED + ((('setwin', 0, win0),) if win0 != 1 else ())
             out.append(Std('%s-w%d' % (profile, win0), profile=profile, init=init,
